@@ -88,4 +88,45 @@ func init() {
 		Bounds: routeBounds, Assume: routeAssume,
 		Outside: append([]string{"registration orders other than reversal / rotation of the rule list", "literal-vs-wildcard domination inside variable patterns ({f=aa/*} vs {g=*/*}) is unspecified by the property text"}, routeOutside...),
 	})
+
+	addProp(&PropSpec{
+		ID: "C16",
+		Harnesses: []HarnessSpec{
+			{Name: "VerifH_addRule_sym", Covers: []string{"invalid-rejected", "unspecified", "unknown-field", "conflict", "valid-accepted", "valid-with-variable", "old-route-intact"}},
+			{Name: "VerifH_addRule_selectors", Covers: []string{"selector-rejected", "resp-whole", "resp-field"}},
+			{Name: "VerifH_addRule_collisions", Covers: []string{"redeclare-implicit", "own-path-verb", "star-vs-verb", "same-verb-conflict", "nested-bindings", "additional-bindings", "star-star-conflict"}},
+		},
+		Bounds: map[string]string{
+			"quick":    "every ASCII template string of 0..8 bytes (all bytes symbolic) registered with the real addRule onto an empty and a pre-populated trie; body selectors: menu + every ASCII string of 1..4 bytes, response_body: menu + every ASCII string of 1..3 bytes; 7 collision scenarios",
+			"thorough": "templates of 0..10 bytes; selectors as quick",
+		},
+		Assume:  []string{"fake descriptors", "grammar of lexer.go's header with LITERAL/IDENT character classes of the token comments (Appendix C.1)", "bytes < 0x80"},
+		Outside: []string{"nested variables, '**' before another segment, literals not starting with a letter, message-typed path fields: only panic-freedom is demanded (unspecified)", "kind '*' of one method vs a specific verb of another on the same path (unspecified)", "publication atomicity of registerService (claimed with C11/C12 once the registry driver exists)", "accepted => every instantiation routes: discharged over the rule-set family by C02"},
+	})
+	addProp(&PropSpec{
+		ID: "C19",
+		Harnesses: []HarnessSpec{
+			{Name: "VerifH_selector", Covers: []string{"selected", "selected-by-wildcard", "selected-exact", "not-selected"}},
+		},
+		Bounds: map[string]string{
+			"quick":    "one well-formed symbolic selector of 1..6 ASCII bytes plus one of {aa.*, aa.bb, *}, both registration orders, against every method full name of 3..7 ASCII bytes with >= 2 components",
+			"thorough": "selector 1..7 bytes, names 3..9 bytes",
+		},
+		Assume:  []string{"selectors are well-formed (malformed selectors panic by design at option time)", "strings.Cut/Index modelled byte-wise"},
+		Outside: []string{"health.AddHealthz end-to-end (proto.Merge and the real health server are not encoded)", "config-rule vs annotation equivalence through appendHandler (pending the registry driver)", "'pkg.*' against the name 'pkg' itself (zero further components) is unspecified"},
+	})
+	addProp(&PropSpec{
+		ID: "C14",
+		Harnesses: []HarnessSpec{
+			{Name: "VerifH_binhdr", Covers: []string{"padded", "unpadded"}},
+			{Name: "VerifH_outgoing", Covers: []string{"custom", "custom-bin", "details-bin"}},
+			{Name: "VerifH_incoming", Covers: []string{"padded", "unpadded"}},
+		},
+		Bounds: map[string]string{
+			"quick":    "'-bin' values: padded and unpadded base64 of every byte string of 0..4 bytes; outgoing: reserved names, near-misses of grpc-status with one symbolic byte, every lower-case ASCII key of 1..4 bytes, symbolic values of 0..3 bytes, two values per key; incoming: two custom values of 0..2 symbolic bytes, binary value of 0..2 bytes",
+			"thorough": "'-bin' values of 0..5 bytes; incoming binary 0..4",
+		},
+		Assume:  []string{"encoding/base64 and net/textproto.CanonicalMIMEHeaderKey interpreted from source", "handler metadata keys are lower-case (metadata.New / Pairs contract)", "context.WithValue built directly (comparability check skipped)"},
+		Outside: []string{"client-visible trailers on gRPC / gRPC-web (needs the serveGRPC driver with the ResponseWriter model)", "grpc-go's client-side view, HPACK"},
+	})
 }
